@@ -238,7 +238,7 @@ def run_case(case):
             if a is None or not isnum(e):
                 continue
             stats["offset_twin_readings"] = stats.get("offset_twin_readings", 0) + 1
-            if abs(a - b) > 2 * (4 * e.e + 1e-9 * max(1.0, abs(e.v))):
+            if abs(a - b) > 2 * (4 * e.e + numeric.FLOOR * max(1.0, abs(e.v))):
                 viol.append({"monitor": "offset-twin", "sig": f"C04|position-dependent|{cls}",
                              "detail": f"{ind.name}: same input values give {a} when the series starts at {s} (candle {i + s}) but {b} when it starts at 0 (candle {i}); budget {2 * 4 * e.e:.3g}"})
                 break
